@@ -52,6 +52,7 @@ def cases(draw, tier):
             "explicit_mean": draw(st.booleans()),
             "strided": draw(st.booleans()),
             "scalar_param": draw(st.booleans()),
+            "badlen": draw(st.sampled_from([0, 0, 1, 2, 3, 5])),
             "bad": draw(st.sampled_from(["order0", "order11", "nanparam",
                                          "nanmean", "nanini"]))}
 
@@ -225,7 +226,9 @@ def oracle(case):
 
     # rejection
     bad = case["bad"]
-    x = np.array([0.1, -0.2, 0.3])
+    # (whatever the length of the series, 0 included)
+    x = np.array([0.1, -0.2, 0.3, 0.7, -1.1])[:case.get("badlen", 3)]
+    labels.append(f"rejection-series-length:{len(x)}")
     if bad == "order0":
         a = (np.zeros(0), x, {})
     elif bad == "order11":
